@@ -497,13 +497,13 @@ func (r *runner) apply(o hop) bool {
 		}
 		r.steps = append(r.steps, fmt.Sprintf("SOp %s %s", name, gObs(r.d, r.n)))
 	case opRestart:
-		// Not modelled (see notes): a second restart of a series that has several series records in the
+		// Not modelled (see notes): a restart of a series that has several series records in the
 		// WAL (it was garbage collected and created again): which head chunk file entries Head.Init
 		// attaches to which record then depends on ref bookkeeping the model does not follow exactly.
-		if r.restarts > 0 {
+		{
 			for _, k := range r.markers {
 				if k >= 2 {
-					r.classes["stopped-second-restart-of-recreated-series"]++
+					r.classes["stopped-restart-of-recreated-series"]++
 					r.stopped = true
 					return false
 				}
